@@ -53,6 +53,7 @@ def run(ctx):
     side_rules_2(ctx)
     side_rules_3(ctx)
     side_rules_4(ctx, cg)
+    side_rules_5(ctx)
     # "the service still answers the next request": a task that waits for a lock it holds itself never does (C07.R11)
     ctx.include("C07", rules=("R11",))
     # ---- side conditions of the reviewed entries (evaluated lazily, once)
@@ -239,6 +240,32 @@ def side_rules_3(ctx):
                       "the first component returned by get_cookie must be data[..8] obtained with a check (is %s): a shorter client cookie "
                       "reaches set_cookie's length assertion when the reply is built" % show(first)[:100])
     ctx.floor("S3", "cookie pairs built by the accessor", n, 1)
+
+
+def side_rules_5(ctx):
+    """S5: the registrations in lazy_static initialisers are accepted as "constant, independent of any input" — which they are
+    only while every metric has a name of its own: registering a second collector under a name already taken returns AlreadyReg,
+    and the initialiser's unwrap() panics the first time the metric is touched (on whatever rare path touches it)."""
+    P = ctx.P
+    names = {}
+    for b in P.bodies.values():
+        if "__static_ref_initialize" not in b.id or "::test" in b.id:
+            continue
+        T = None
+        for bb, tm in b.calls():
+            nme = callee_name(tm) or ""
+            if nme.startswith("prometheus::") and nme.rsplit("::", 1)[-1] == "new" and ("Opts" in nme) and tm["args"]:
+                T = T or terms(P, b)
+                a0 = norm(T.call_args(bb)[0])
+                if a0[0] == "const" and isinstance(a0[1], str):
+                    names.setdefault(a0[1], []).append((b, tm))
+    for nm, where in sorted(names.items()):
+        b0, tm0 = where[-1]
+        ctx.check(len(where) == 1, "S5", "metric-name-registered-once:%s" % nm, ctx.where(b0, tm0["sp"]),
+                  "%d collectors are registered under the name %r: the second registration fails and its unwrap() panics in whichever "
+                  "task first touches that metric" % (len(where), nm))
+    if ctx.config == "default":
+        ctx.floor("S5", "metric registrations", len(names), 10)
 
 
 def _AWAIT_STEP(name):
